@@ -14,6 +14,7 @@
   (`Props/Lemmas/C15_Exec.lean`) and over the job list (`Props/Lemmas/C15_Multi.lean`).
 -/
 import Props.Lemmas.C15_Monitor
+import Props.Lemmas.C15_Links
 
 namespace Pypyr.C15
 open Pypyr.FsRewrite
@@ -171,6 +172,172 @@ example : final fsEx (exec {} (Plan.single 5 .raise) 0 { fs := fsEx } (inplaceOp
     = fsEx := by
   decide +kernel
 
+/-! ### "out equal to in": every way two paths can name one file
+
+  `Links` (PypyrModel/FsRewrite.lean): a path spelling resolves to a directory entry (`resolve`:
+  relative/absolute, `..`, symlinked directory, symlink to the file), an entry names an inode
+  (`inoOf`; hard links share one). `isSameFileL` is inode equality of the resolved entries,
+  `route` is in-place iff there is no out or out is the same inode, `jobOpsL`/`runJobL` run the
+  chosen operation list; on the direct route `open(out,'w')` and every write hit the inode, i.e.
+  all entries linked to it. -/
+
+/-- Hypotheses "out names the file in names": both spellings given, `src` is the entry in resolves
+    to, the entry out resolves to exists and has the inode of `src` — by whatever path. -/
+structure SameFile (l : Links) (fs : Fs) (src o : String) : Prop where
+  srcGiven : src ≠ ""
+  outGiven : o ≠ ""
+  srcCanon : l.resolve src = src
+  srcExists : (fs.get? src).isSome
+  outExists : (fs.get? (l.resolve o)).isSome
+  sameInode : l.sameIno src (l.resolve o) = true
+
+theorem SameFile.isSame {l : Links} {fs : Fs} {src o : String} (h : SameFile l fs src o) :
+    isSameFileL l fs src (some o) = true := by
+  have h1 : fs.contains src = true := by simpa [Fs.contains] using h.srcExists
+  have h2 : fs.contains (l.resolve o) = true := by simpa [Fs.contains] using h.outExists
+  simp [isSameFileL, h.srcGiven, h.outGiven, h.srcCanon, h1, h2, h.sameInode]
+
+/-- a.txt and hl.txt are two links to inode 1; `ln.txt`, `./a.txt`, `sub/../a.txt`, `/abs/a.txt`
+    are spellings that resolve to a.txt; copy.txt is another file with the same bytes. -/
+private def fsL : Fs := [("a.txt", "AA"), ("hl.txt", "AA"), ("copy.txt", "AA"), ("b.txt", "BB")]
+private def linksEx : Links :=
+  { entry := [("ln.txt", "a.txt"), ("./a.txt", "a.txt"), ("sub/../a.txt", "a.txt"), ("/abs/a.txt", "a.txt"),
+              ("lncopy.txt", "copy.txt")],
+    ino := [("a.txt", 1), ("hl.txt", 1), ("copy.txt", 2), ("b.txt", 3)] }
+
+private theorem sameEx_hardlink : SameFile linksEx fsL "a.txt" "hl.txt" :=
+  ⟨by decide, by decide, by decide +kernel, by decide +kernel, by decide +kernel, by decide +kernel⟩
+private theorem sameEx_symlink : SameFile linksEx fsL "a.txt" "ln.txt" :=
+  ⟨by decide, by decide, by decide +kernel, by decide +kernel, by decide +kernel, by decide +kernel⟩
+private theorem sameEx_dotdot : SameFile linksEx fsL "a.txt" "sub/../a.txt" :=
+  ⟨by decide, by decide, by decide +kernel, by decide +kernel, by decide +kernel, by decide +kernel⟩
+
+/-- **route_inplace_iff_same_inode.** With an out given, `in_to_out` takes the temp-then-replace
+    route exactly when `is_same_file` holds — inode identity of what the two spellings resolve to —
+    and otherwise writes straight to the entry out resolves to (and to every entry linked to it). -/
+theorem route_inplace_iff_same_inode (l : Links) (fs : Fs) (j : Job) (o : String)
+    (ho : j.out = some o) (hne : o ≠ "") :
+    (route l fs j = none ↔ isSameFileL l fs j.src j.out = true) ∧
+    (isSameFileL l fs j.src j.out = true → jobOpsL l fs j = inplaceOps j.src j.tmp j.body) ∧
+    (isSameFileL l fs j.src j.out = false →
+      jobOpsL l fs j = directOps j.src (l.resolve o) j.body (l.peers (l.resolve o))) := by
+  refine ⟨?_, ?_, ?_⟩
+  · rw [route_none_iff, ho]
+    simp [hne]
+  · intro h; exact jobOpsL_of_route_none (route_of_same h)
+  · intro h; exact jobOpsL_of_route_some (route_of_not_same ho hne h)
+
+/-- **same_inode_routes_inplace.** Whenever out names the inode of in — identical string, relative
+    vs absolute, `..`, symlink, symlinked directory, hard link: whatever `resolve`/`inoOf` say — the
+    operation list is exactly that of `in_to_out(in)` with no out. -/
+theorem same_inode_routes_inplace {l : Links} {fs : Fs} {src o : String} (h : SameFile l fs src o)
+    (tmp : String) (body : List Op) :
+    jobOpsL l fs { src := src, out := some o, tmp := tmp, body := body } = inplaceOps src tmp body ∧
+    jobOpsL l fs { src := src, out := some o, tmp := tmp, body := body }
+      = jobOpsL l fs { src := src, out := none, tmp := tmp, body := body } := by
+  have h1 : jobOpsL l fs { src := src, out := some o, tmp := tmp, body := body } = inplaceOps src tmp body :=
+    jobOpsL_of_route_none (route_of_same h.isSame)
+  have h2 : jobOpsL l fs { src := src, out := none, tmp := tmp, body := body } = inplaceOps src tmp body :=
+    jobOpsL_of_route_none (route_of_noout rfl)
+  exact ⟨h1, h1.trans h2.symm⟩
+
+example : jobOpsL linksEx fsL { src := "a.txt", out := some "hl.txt", tmp := "tmp#0", body := bodyEx }
+    = inplaceOps "a.txt" "tmp#0" bodyEx := (same_inode_routes_inplace sameEx_hardlink _ _).1
+example : jobOpsL linksEx fsL { src := "a.txt", out := some "ln.txt", tmp := "tmp#0", body := bodyEx }
+    = inplaceOps "a.txt" "tmp#0" bodyEx := (same_inode_routes_inplace sameEx_symlink _ _).1
+example : jobOpsL linksEx fsL { src := "a.txt", out := some "sub/../a.txt", tmp := "tmp#0", body := bodyEx }
+    = inplaceOps "a.txt" "tmp#0" bodyEx := (same_inode_routes_inplace sameEx_dotdot _ _).1
+
+/-- **same_file_out_all_or_nothing.** Whenever out names the inode of in — by whatever path — then
+    under EVERY fault plan and at EVERY prefix of the run the source entry holds its complete
+    original bytes or (only after the successful `replace`) the complete new content; every other
+    entry except the temp name — the other hard links of the source included — holds what it held;
+    a run that ends by raising (clean-up not failed too) leaves exactly the original directory; a
+    killed run leaves the original directory plus at most the temp entry; a run that ends ok leaves
+    the same entries with the source new. -/
+theorem same_file_out_all_or_nothing {l : Links} {fs0 : Fs} {src o tmp orig : String} {body : List Op}
+    (h : SameFile l fs0 src o) (wf : WF fs0 src tmp body) (horig : fs0.get? src = some orig)
+    (cfg : Cfg) (plan : Plan) (i : Nat) :
+    let r := runJobL cfg plan i l fs0 { src := src, out := some o, tmp := tmp, body := body }
+    (∀ ev ∈ r.2, ev.2.get? src = some orig ∨ (ev.1 = "replace" ∧ ev.2.get? src = some (newContent body))) ∧
+    (∀ p, p ≠ src → p ≠ tmp → ∀ ev ∈ r.2, ev.2.get? p = fs0.get? p) ∧
+    (∀ j, r.1 = .raised j → cfg.cleanupWrite = true → plan (j + 1) ≠ .raise → final fs0 r.2 = fs0) ∧
+    (∀ j, r.1 = .killed j →
+      (final fs0 r.2 = fs0 ∨ ∃ c, final fs0 r.2 = fs0 ++ [(tmp, c)]) ∧ (final fs0 r.2).get? src = some orig) ∧
+    (r.1 = .ok → final fs0 r.2 = fs0.set src (newContent body) ∧ (final fs0 r.2).names = fs0.names) := by
+  have hops := (same_inode_routes_inplace h tmp body).1
+  simp only [runJobL, hops]
+  have P := exec_inplace (cfg := cfg) (plan := plan) body wf.bodyOps wf.tmpFresh wf.srcExists i
+  refine ⟨src_always_whole wf horig cfg plan i, ?_, ?_, ?_, ?_⟩
+  · intro p hps hpt
+    exact unmatched_untouched wf cfg plan i p hps hpt
+  · intro j hr hc hp
+    exact P.raised j hr hc hp
+  · intro j hk
+    exact kill_leaves_src_whole wf horig cfg plan i j hk
+  · intro hok
+    exact ⟨(success_same_entries wf cfg plan i hok).1, (success_same_entries wf cfg plan i hok).2.1⟩
+
+private theorem wfL : WF fsL "a.txt" "tmp#0" bodyEx where
+  srcExists := by decide +kernel
+  tmpFresh := by decide +kernel
+  bodyOps := by decide +kernel
+
+/-- out = a second hard link of in, the second line fails to format: nothing changed. -/
+example : final fsL (runJobL {} (Plan.single 5 .raise) 0 linksEx fsL
+    { src := "a.txt", out := some "hl.txt", tmp := "tmp#0", body := bodyEx }).2 = fsL := by
+  decide +kernel
+
+/-- **other_file_out_never_touches_in.** If out resolves to an entry whose inode is not the inode of
+    in (a different file with equal content, a copy, a file that does not exist yet), then under
+    every fault plan and at every prefix every entry that is not a link to out's inode — the source
+    first of all (`p := src`) — holds exactly what it held. -/
+theorem other_file_out_never_touches_in (l : Links) (fs0 : Fs) (src o tmp : String) (body : List Op)
+    (hne : o ≠ "") (hcan : l.resolve src = src) (hb : ∀ op ∈ body, op.isBody = true)
+    (hdiff : l.sameIno src (l.resolve o) = false)
+    (cfg : Cfg) (plan : Plan) (i : Nat) (p : String) (hp : l.sameIno p (l.resolve o) = false) :
+    ∀ ev ∈ (runJobL cfg plan i l fs0 { src := src, out := some o, tmp := tmp, body := body }).2,
+      ev.2.get? p = fs0.get? p := by
+  have hns : isSameFileL l fs0 src (some o) = false := by
+    simp [isSameFileL, hcan, hdiff]
+  have hops := jobOpsL_of_route_some
+    (route_of_not_same (j := { src := src, out := some o, tmp := tmp, body := body }) rfl hne hns)
+  simp only [runJobL, hops]
+  have hpo : p ≠ l.resolve o := by
+    intro he
+    rw [he, Links.sameIno_refl] at hp
+    cases hp
+  have hpp : p ∉ l.peers (l.resolve o) := by
+    intro hm
+    rw [Links.sameIno_of_mem_peers hm] at hp
+    cases hp
+  exact exec_direct_frame cfg plan hpo hpp _ (directOps_directTo src _ body _ hb) i { fs := fs0 }
+    ⟨rfl, Or.inl rfl⟩
+
+/-- out = a copy with the same bytes, second write fails: the copy is left half-written (the direct
+    route is not claimed to be atomic), the source and its hard link are untouched. -/
+example : final fsL (runJobL {} (Plan.single 6 .raise) 0 linksEx fsL
+    { src := "a.txt", out := some "lncopy.txt", tmp := "tmp#0", body := bodyEx }).2
+      = [("a.txt", "AA"), ("hl.txt", "AA"), ("copy.txt", "X"), ("b.txt", "BB")] := by
+  decide +kernel
+
+/-- **path_identity_is_not_enough** (witness: why `is_same_file` must compare inodes, not resolved
+    path names). out = a second hard link of in. A path-comparing test says "different file" and the
+    code takes the direct route: `open(out,'w')` truncates the inode both names share. If the first
+    line then fails to format the source is empty — the original is destroyed; if the second write
+    fails the source holds a fragment that is neither the original nor the new content. The route
+    the model (and `os.path.samefile`) takes leaves the source intact under the same plans. -/
+theorem path_identity_is_not_enough :
+    let direct := directOps "a.txt" "hl.txt" bodyEx (linksEx.peers "hl.txt")
+    linksEx.peers "hl.txt" = ["a.txt"] ∧
+    (final fsL (exec {} (Plan.single 3 .raise) 0 { fs := fsL } direct).2).get? "a.txt" = some "" ∧
+    (final fsL (exec {} (Plan.single 6 .raise) 0 { fs := fsL } direct).2).get? "a.txt" = some "X" ∧
+    (final fsL (runJobL {} (Plan.single 3 .raise) 0 linksEx fsL
+      { src := "a.txt", out := some "hl.txt", tmp := "tmp#0", body := bodyEx }).2).get? "a.txt" = some "AA" ∧
+    (final fsL (runJobL {} (Plan.single 6 .raise) 0 linksEx fsL
+      { src := "a.txt", out := some "hl.txt", tmp := "tmp#0", body := bodyEx }).2).get? "a.txt" = some "AA" := by
+  decide +kernel
+
 /-! ### Several files: the loop of `files_in_to_out` (single files, lists, globs) -/
 
 private def jobsEx : List Job :=
@@ -235,6 +402,32 @@ example : (runJobs {} (Plan.single 14 .kill) 0 fsEx jobsEx).1 = .killed 14 ∧
       = [("a.txt", "XY"), ("b.txt", "BB"), ("tmp#1", "Z")] := by
   decide +kernel
 
+/-- **files_out_alias_is_no_out.** A run over several files in which every out is absent or a
+    spelling of the source entry itself (identical string, relative vs absolute, `..`, symlinked
+    directory — e.g. out = the directory of the in files — or a symlink to the file) is, under every
+    fault plan, event for event the run with no out at all: every theorem of this section applies to
+    it. (A hard-linked out is covered per file by `same_file_out_all_or_nothing`; in a multi-file
+    run inode ids change as the loop replaces sources, which `runJobsL` tracks.) -/
+theorem files_out_alias_is_no_out {fs0 : Fs} {J : List Job} (l : Links)
+    (wf : JobsWF fs0 (J.map Job.noOut)) (hpa : ∀ j ∈ J, PathAlias l j)
+    (cfg : Cfg) (plan : Plan) (i : Nat) :
+    runJobsL cfg plan i l fs0 J = runJobs cfg plan i fs0 (J.map Job.noOut) :=
+  runJobsL_eq_runJobs cfg plan J
+    (fun j hj => wf.srcExists j.noOut (List.mem_map_of_mem hj))
+    (fun j hj => wf.tmpFresh j.noOut (List.mem_map_of_mem hj))
+    (fun j hj => wf.bodyOps j.noOut (List.mem_map_of_mem hj)) i l fs0 rfl hpa
+
+private def jobsLEx : List Job :=
+  [{ src := "a.txt", out := some "ln.txt", tmp := "tmp#0", body := streamBody 1 ["X", "Y"] },
+   { src := "b.txt", tmp := "tmp#1", body := objectBody ["Z"] }]
+
+example : ∀ j ∈ jobsLEx, PathAlias linksEx j := by
+  intro j hj
+  simp only [jobsLEx, List.mem_cons, List.mem_nil_iff, or_false] at hj
+  rcases hj with rfl | rfl
+  · exact Or.inr ⟨"ln.txt", rfl, by decide +kernel, by decide +kernel, by decide⟩
+  · exact Or.inl rfl
+
 /-! ### The monitor -/
 
 /-- **model_holds_C15.** The monitor `judge` — the statement of C15 as a decidable predicate over
@@ -250,6 +443,26 @@ theorem model_holds_C15 {fs0 : Fs} {J : List Job} (wf : JobsWF fs0 J) (hnd : (J.
     (judge fs0 (final fs0 (runJobs {} plan i fs0 J).2)
       (J.map fun j => (j.src, newContent j.body)) (runJobs {} plan i fs0 J).1.toEnd).holds = true :=
   judge_model wf hnd hnames htmp plan hplan i
+
+/-- **model_holds_C15_links.** The same for the loop that decides same-file-ness on inodes
+    (`runJobsL`, what the driver runs), for every link table under which every out is absent or a
+    spelling of its source entry. -/
+theorem model_holds_C15_links {fs0 : Fs} {J : List Job} (l : Links)
+    (wf : JobsWF fs0 (J.map Job.noOut)) (hpa : ∀ j ∈ J, PathAlias l j)
+    (hnd : (J.map (·.src)).Nodup) (hnames : fs0.names.Nodup) (htmp : ∀ j ∈ J, isTempName j.tmp = true)
+    (plan : Plan) (hplan : ∀ i, plan i = .raise → plan (i + 1) ≠ .raise) (i : Nat) :
+    (judge fs0 (final fs0 (runJobsL {} plan i l fs0 J).2)
+      (J.map fun j => (j.src, newContent j.body)) (runJobsL {} plan i l fs0 J).1.toEnd).holds = true := by
+  rw [files_out_alias_is_no_out l wf hpa]
+  have hnd' : ((J.map Job.noOut).map (·.src)).Nodup := by
+    rw [List.map_map]; exact hnd
+  have htmp' : ∀ j ∈ J.map Job.noOut, isTempName j.tmp = true := by
+    intro j hj
+    obtain ⟨j0, hj0, rfl⟩ := List.mem_map.mp hj
+    exact htmp j0 hj0
+  have := model_holds_C15 wf hnd' hnames htmp' plan hplan i
+  rw [List.map_map] at this
+  exact this
 
 /-- The monitor is not vacuous: it rejects the pre-fix leftover and a truncated source. -/
 example : (judge fsEx (fsEx ++ [("tmp#0", "X")]) [("a.txt", "XY")] .raised).holds = false ∧
